@@ -2,6 +2,7 @@
 from __future__ import annotations
 
 import itertools
+import math
 import random
 import warnings
 from fractions import Fraction
@@ -182,6 +183,16 @@ def card_items(run, rng, tier):
     return items
 
 
+def limbs(x):
+    """a non-negative integer as base-10000 limbs, least significant first (TLC's integers are 32-bit)"""
+    x = int(x)
+    out = []
+    while x:
+        out.append(x % 10000)
+        x //= 10000
+    return out
+
+
 def arith_items(run, rng, tier):
     from pokerkit.utilities import divmod as pdivmod, rake as prake
     items = []
@@ -193,6 +204,23 @@ def arith_items(run, rng, tier):
             # exact mode: everything scaled by 4 * d so that it is integral
             items.append({'kind': 'divmod', 'integral': False, 'a': a * d, 'd': d, 'q': 0, 'r': int(fr * 4 * d), 'qd': int(fq * d * 4 * d)})
             run.count('divmod_cases')
+    # chips of the inexact number types (float, Decimal): the quotient is rounded, the remainder carries what the rounding left,
+    # and the parts - `divisor` shares of the quotient, as the type multiplies them, plus the remainder - are the amount again.
+    # The harness converts the native numbers to exact rationals over one denominator; TLC adds them up as multi-limb integers.
+    from decimal import Decimal
+    cents = list(range(1, 4000, 37 if tier == 'quick' else 3))
+    for c in cents:
+        for d in range(1, 10):
+            for typ, a in (('float', c / 100), ('float', float(c)), ('decimal', Decimal(c) / 100), ('decimal', Decimal(c))):
+                q, r = pdivmod(a, d)
+                share = q * d
+                fa, fs, fr = Fraction(a), Fraction(share), Fraction(r)
+                den = math.lcm(fa.denominator, fs.denominator, fr.denominator)
+                items.append({'kind': 'divmodx', 'typ': typ, 'text': repr(a), 'd': d, 'A': limbs(fa * den), 'P': limbs(fs * den),
+                              'R': limbs(abs(fr) * den), 'rneg': fr < 0, 'qtext': repr(q), 'rtext': repr(r)})
+                run.count('divmod_inexact_cases')
+                if fs != fa:        # the shares alone miss the amount: the remainder has something to carry
+                    run.count('divmod_rounding_residue')
     for amount in range(0, 41):
         for (pn, pd) in [(0, 1), (1, 8), (1, 10), (1, 20), (3, 10), (1, 2), (1, 1), (5, 100)]:
             for cap in (-1, 0, 1, 3):
@@ -217,6 +245,6 @@ def check_C19(run: Run):
     run.rule = ('clean_values on all vectors over {0,1,2}^n (n<=3, sampled above) in every way of writing them; layouts (valid and '
                 'each documented kind of invalid) constructed through State in every combination of writings and through one game '
                 'object reused for two table sizes; every card repr, random card strings with mixed separators and "10", invalid '
-                'strings; divmod for amount<=40 x divisor<=9 (integral and exact), rake for amount<=40 x 8 percentages x 4 caps. '
+                'strings; divmod for amount<=40 x divisor<=9 (integral and exact) and for float and Decimal amounts up to 40.00 in cents and in whole chips x divisor<=9 (parts re-added exactly), rake for amount<=40 x 8 percentages x 4 caps. '
                 'The spelling renderer and the construction of the Python objects are part of the trusted harness')
-    run.need('clean:map', 'layouts', 'card_strings', 'rake_cases')
+    run.need('clean:map', 'layouts', 'card_strings', 'rake_cases', 'divmod_rounding_residue')
